@@ -628,13 +628,12 @@ func isSaturatedLen(fn *ssa.Function, field string) (bool, string) {
 			}
 			continue
 		}
-		cv, ok := v.(*ssa.Convert)
-		if !ok {
+		if _, ok := v.(*ssa.Convert); !ok {
 			return false, "returned value is not a conversion of len(words): " + core.Describe(v)
 		}
-		x, isLen := core.LenOf(cv.X)
+		x, isLen := core.LenOf(core.Strip(v))
 		if !isLen || !isFieldLoad(x, field) {
-			return false, "returned value is not len of the words field: " + core.Describe(cv.X)
+			return false, "returned value is not len of the words field: " + core.Describe(v)
 		}
 	}
 	return true, ""
